@@ -25,6 +25,9 @@ Decided clauses:
   R4.9 HMAC key preparation (RFC 2104): in crypto_auth_hmacsha256_init / _hmacsha512_init the block size B is the length of the
        ipad / opad block handed to the hash; the caller's key is hashed first exactly on the paths whose branch facts give
        keylen >= B + 1, and used directly only with keylen <= B (which also bounds the `pad[i] ^= key[i]` loop).
+  R4.10 HKDF-Expand chains each block to its predecessor (RFC 5869: T(i) = HMAC(PRK, T(i-1) || info || i)): wherever a block of the
+        output buffer is fed back into the HMAC, its address is the destination of the block being produced minus the hash length -
+        in both the full-block loop and the partial tail, for SHA-256 and SHA-512.
 NOT decided: digest values, chunking associativity, the values of the Poly1305 carries, HKDF chaining.
 """
 from .. import terms as T
@@ -166,6 +169,7 @@ def run(ctx, chk):
     chk.floor("R4.7", "BLAKE2b hand-overs in crypto_kdf_blake2b_derive_from_key", n47, 1)
     schedule_rule(prog, chk)
     hmac_key_rule(prog, chk)
+    hkdf_chain_rule(prog, chk)
 
 
 BLAKE2B_VECTOR = ("blake2b_compress_ssse3", "blake2b_compress_sse41", "blake2b_compress_avx2")
@@ -243,3 +247,89 @@ def hmac_key_rule(prog, chk):
                 chk.ob("R4.9", fn, "a key used directly is at most one block (%d bytes) long" % B, ok, loc=fn.loc(p.end_iid),
                        path=None if ok else p, detail="" if ok else "keylen may be %d on this path" % iv[1], key="R4.9 %s direct" % name)
     chk.floor("R4.9", "returning paths of the HMAC init functions", n, 4)
+
+
+def _ptr_key(fn, o, depth=0):
+    """structural key of a pointer operand: bitcasts and zero-offset geps looked through, a gep is (base key, index keys)"""
+    if o[0] != "v" or depth > 8:
+        return tuple(o[:2])
+    ins = fn.insts[o[1]]
+    if ins["op"] == "bitcast":
+        return _ptr_key(fn, ins["ops"][0], depth + 1)
+    if ins["op"] == "getelementptr":
+        if not ins.get("var") and ins.get("off") == 0:
+            return _ptr_key(fn, ins["ops"][0], depth + 1)
+        return ("gep", _ptr_key(fn, ins["ops"][0], depth + 1), ins.get("off") if not ins.get("var") else None,
+                tuple(tuple(x[:2]) for x in ins["ops"][1:]))
+    return tuple(o[:2])
+
+
+def _phi_is_last_block(fn, call_iid):
+    """the data operand of the update call is a loop-carried pointer: every non-null value it can take (through any chain of phis) is,
+    structurally, the address a *_final call writes its block to"""
+    finals = set()
+    for j in fn.insts:
+        cal = j.get("callee")
+        if j["op"] == "call" and cal and cal[0] == "g" and cal[1].endswith("_final") and len(j["ops"]) >= 2:
+            finals.add(_ptr_key(fn, j["ops"][1]))
+    leaves, seen, stack = set(), set(), [fn.insts[call_iid]["ops"][1]]
+    while stack:
+        o = stack.pop()
+        while o[0] == "v" and fn.insts[o[1]]["op"] == "bitcast":
+            o = fn.insts[o[1]]["ops"][0]
+        if o[0] == "v" and fn.insts[o[1]]["op"] == "phi":
+            if o[1] in seen:
+                continue
+            seen.add(o[1])
+            stack.extend(v for v, _b in fn.insts[o[1]]["inc"])
+        elif o[0] == "null" or (o[0] == "i" and o[1] == 0):
+            continue
+        else:
+            leaves.add(_ptr_key(fn, o))
+    return bool(seen) and bool(leaves) and leaves <= finals
+
+
+def hkdf_chain_rule(prog, chk):
+    n = 0
+    for name in ("crypto_kdf_hkdf_sha256_expand", "crypto_kdf_hkdf_sha512_expand"):
+        fn = prog.need(name, rule="R4.10")
+        OUT = ("arg", 0)
+        for p in cm.paths(prog, fn):
+            if p.kind != "ret" or not p.may_return_zero():
+                continue
+            evs = list(p.calls())
+            for x, e in enumerate(evs):
+                nm = e.callee_name() or ""
+                if nm.endswith("_update") and len(e.args) >= 3 and e.args[2][0] == "c" and T.root(e.args[1])[0] == "havoc":
+                    # a loop-carried pointer is fed back: decided on the SSA graph - the value it takes around the loop must be the
+                    # very pointer the iteration's *_final call writes its block through
+                    n += 1
+                    ok = _phi_is_last_block(fn, e.iid)
+                    chk.ob("R4.10", fn, "the block fed back into the HMAC is the one just before the block being produced", ok, loc=fn.loc(e.iid),
+                           path=None if ok else p, detail="" if ok else "the fed-back pointer is loop-carried and does not take the address "
+                           "of the block written by *_final in the previous iteration", key="R4.10 %s chain" % name)
+                    continue
+                if not nm.endswith("_update") or len(e.args) < 3 or T.root(e.args[1]) != OUT or e.args[2][0] != "c":
+                    continue
+                H = e.args[2][1]
+                # the block being produced: next final into out, or next memcpy of the temporary into out
+                dst = None
+                for w in evs[x + 1:]:
+                    wn = w.callee_name() or ""
+                    if wn.endswith("_final") and T.root(w.args[1]) == OUT:
+                        dst = w.args[1]
+                        break
+                    if wn.startswith(("memcpy", "llvm.memcpy")) and T.root(w.args[0]) == OUT:
+                        dst = w.args[0]
+                        break
+                    if wn.endswith("_init"):
+                        break
+                n += 1
+                ok = False
+                if dst is not None:
+                    (ca, ka), (cb, kb) = T.linear(e.args[1]), T.linear(dst)
+                    ok = ca == cb and ka == kb - H
+                chk.ob("R4.10", fn, "the block fed back into the HMAC is the one just before the block being produced", ok, loc=fn.loc(e.iid),
+                       path=None if ok else p, detail="" if ok else "feeds %s back while producing %s" %
+                       (T.show(e.args[1], fn), T.show(dst, fn) if dst is not None else "?"), key="R4.10 %s chain" % name)
+    chk.floor("R4.10", "fed-back blocks on HKDF-Expand paths", n, 4)
